@@ -254,15 +254,21 @@ def _alarm(signum, frame):
     raise Timeout()
 
 
-def run_impl_guarded(model_mod, lines, seconds=5):
-    """Run the implementation on one scenario with a wall-clock guard (hang detection)."""
-    old = signal.signal(signal.SIGALRM, _alarm)
-    signal.setitimer(signal.ITIMER_REAL, seconds)
+def run_impl_guarded(model_mod, lines, seconds=10):
+    """Run the implementation on one scenario with a hang guard: `seconds` of the process's own CPU time
+    (so that a loaded machine cannot turn a slow scenario into a "hang"), backed by a generous wall clock
+    limit for a scenario that blocks without computing."""
+    old = signal.signal(signal.SIGPROF, _alarm)
+    old2 = signal.signal(signal.SIGALRM, _alarm)
+    signal.setitimer(signal.ITIMER_PROF, seconds)
+    signal.setitimer(signal.ITIMER_REAL, 30 * seconds)
     try:
         return model_mod.run_impl(lines)
     finally:
+        signal.setitimer(signal.ITIMER_PROF, 0)
         signal.setitimer(signal.ITIMER_REAL, 0)
-        signal.signal(signal.SIGALRM, old)
+        signal.signal(signal.SIGPROF, old)
+        signal.signal(signal.SIGALRM, old2)
 
 
 def scen_hash(lines):
